@@ -48,6 +48,11 @@ NEEDS = {
  "c12-k": ("canonical graph assembled by hand: bonds without attributes keep a placeholder dict shared by all bonds of an atom", "canonicalize a parsed graph (bonds carry no attributes), then write one bond's attribute in the result"),
  "c12-l": ("serializer removes self-loop edges from the graph it is given", "an input with a bond whose two atom indices are equal; caller keeps the graph"),
  "c16-k": ("as c16-c (independent rediscovery)", "as c16-c"),
+ "c14-x": ("parser listener reports the first repeated key of an attribute tuple from a set of key strings", "a rejected string whose single attribute tuple repeats both `mass` and `rad`; messages compared across hash seeds"),
+ "c14-y": ("`calc_coordinates=True` layout cached for 60 s of monotonic time, key ignores node iteration order", "two graphs with equal labelled connectivity but different node order written with calculated coordinates within a minute"),
+ "c14-z": ("one module-level ANTLR error strategy shared by all parsers: `errorRecoveryMode` survives a rejected parse", "a parser-level reject immediately followed (any thread) by an input whose syntax error is at token 0: it is accepted"),
+ "c12-m": ("canonicalize refines partitions in place on the caller's graph and restores them at the end, no try/finally", "an interrupt inside canonicalize: the argument keeps intermediate partition values"),
+ "c16-l": ("private RNG with a cache of first shuffles keyed by `round(seed, 9)`", "two seeds equal to 9 decimals on molecules with the same labels"),
 }
 print("| seeded change | what it does | needs in order to manifest | tests / demo | reported by (quick tier, VERIF_SEED=1) |")
 print("|---|---|---|---|---|")
